@@ -3,6 +3,7 @@ prop_mod!(mpc, "mpc.rs");
 prop_mod!(c01, "c01.rs");
 prop_mod!(c02, "c02.rs");
 prop_mod!(c03, "c03.rs");
+prop_mod!(c04, "c04.rs");
 prop_mod!(c08, "c08.rs");
 
 fn dispatch(env: &common::Env) -> (&'static str, Vec<common::Sub>) {
@@ -10,6 +11,7 @@ fn dispatch(env: &common::Env) -> (&'static str, Vec<common::Sub>) {
         "C01" => (c01::LEVEL, c01::subs(env)),
         "C02" => (c02::LEVEL, c02::subs(env)),
         "C03" => (c03::LEVEL, c03::subs(env)),
+        "C04" => (c04::LEVEL, c04::subs(env)),
         "C08" => (c08::LEVEL, c08::subs(env)),
         other => panic!("no harness for property {other} in this build"),
     }
